@@ -230,7 +230,11 @@ def check(prop, tier, seed, nshards):
             # shard died: find the culprit
             pend = read_pending(os.path.join(outdir, f"pending-{i}.bin"))
             hang = os.path.exists(os.path.join(outdir, f"hang-{i}.json"))
-            tail = open(os.path.join(outdir, f"shard-{i}.log")).read()[-3000:]
+            full_log = open(os.path.join(outdir, f"shard-{i}.log"), errors="replace").read()
+            tail = full_log[-3000:]
+            k = full_log.find("fatal error:")
+            if k >= 0:
+                tail = full_log[k:k + 2500]
             if prop == "C18" and "fatal error: concurrent map" in tail:
                 # schedule-dependent: the runtime's own detector of unsynchronised map access fired
                 v = {"property": "C18", "site": "runtime", "clause": "concurrent-map-access-fatal", "shape": {"build": bname},
@@ -252,7 +256,7 @@ def check(prop, tier, seed, nshards):
             if rrc == 124 or (hang and rrc not in (0, 1)):
                 confirmed = True
             if confirmed:
-                v = {"property": "C04" if prop != "C20" else "C20", "site": op.split("#")[0], "clause": "hang" if (hang or rrc == 124) else "process-fatal",
+                v = {"property": prop if prop in ("C18", "C20") else "C04", "site": op.split("#")[0], "clause": "hang" if (hang or rrc == 124) else "process-fatal",
                      "shape": {"op": op}, "job": job, "index": idx, "seed": seed, "tier": tier,
                      "input_hex": inp.hex()[:140000], "detail": (rout or tail)[-1500:]}
                 merged["violations"].append(v); merged["violation_count"] += 1
